@@ -83,10 +83,19 @@ class Extinction(object):
             The wavelengths at which to interpolate the visual extinction.
         """
         if isinstance(wav, u.Quantity) and wav.unit.is_equivalent(u.m):
-            return (-0.4 * np.interp(wav.to(self.wav.unit), self.wav, self.chi, left=0., right=0.)
-                    / np.interp(([0.55] * u.micron).to(self.wav.unit), self.wav, self.chi))
+            return (-0.4 * np.interp(self._on_table(wav), self.wav, self.chi, left=0., right=0.)
+                    / np.interp(self._on_table([0.55] * u.micron), self.wav, self.chi))
         else:
             raise TypeError("wav should be given as a Quantity object with units of length")
+
+    def _on_table(self, wav):
+        # A wavelength equal to the first or last tabulated one can end up one
+        # rounding error outside the table once converted to the table's
+        # unit, so it is moved back onto the table
+        x = wav.to(self.wav.unit).value
+        for edge in (self.wav.value[0], self.wav.value[-1]):
+            x = np.where(np.abs(x - edge) <= 1.e-14 * abs(edge), edge, x)
+        return x * self.wav.unit
 
     @classmethod
     def from_table(cls, table):
